@@ -204,6 +204,11 @@ Theorem C14_hash_consistent a b e : e <= pexp a -> e <= pexp b -> vat e a = vat 
 Proof. intros Ha Hb H. split; [exact (phash_consistent a b e Ha Hb H)|exact (phash_total a)]. Qed.
 Print Assumptions C14_hash_consistent.
 
+(* in the model the hash is a faithful key of the value (CPython's hash may collide; only -> is observable) *)
+Theorem C14_hash_iff_same_value a b e : e <= pexp a -> e <= pexp b -> (vat e a = vat e b <-> phash a = phash b).
+Proof. intros Ha Hb. split; [exact (phash_consistent a b e Ha Hb)|exact (phash_injective a b e Ha Hb)]. Qed.
+Print Assumptions C14_hash_iff_same_value.
+
 (* ================================================================== 6. int() and float() *)
 (* int(p) never raises and is THE integer part of the value (toward zero), on the value at any exponent e <= 0:
    |t| * 10^-e <= |V| < (|t| + 1) * 10^-e  and  t, V have the same sign *)
